@@ -104,8 +104,42 @@ def gen_cases(rng, n_random):
     return cases, reprs
 
 
-def real_run(cases, reprs):
-    p = V.run_py("r_pos.py", input_=json.dumps({"cases": cases, "reprs": reprs}))
+def mutate(v, path, newval):
+    """the value description after `path := newval` (path through start/end/range/line/character/uri)"""
+    import copy as _c
+    v = _c.deepcopy(v)
+    idx = {"pos": {"line": 1, "character": 2}, "rng": {"start": 1, "end": 2}, "loc": {"uri": 1, "range": 2}}
+    t = v
+    for name in path[:-1]:
+        t = t[idx[t[0]][name]]
+    t[idx[t[0]][path[-1]]] = newval
+    return v
+
+
+def gen_mutations(rng, n):
+    """[op, a, b, path, new value]: a and b are compared, a is changed in place, then a op b is asked again"""
+    out = []
+    def rp():
+        return ["pos", rng.choice(GRID + [rng.randrange(50)]), rng.choice(GRID + [rng.randrange(50)])]
+    def ok(z):
+        return min(max(z, 0), 2**31 - 1)          # attribute assignment runs the attrs validators: stay inside the uinteger range
+    for _ in range(n):
+        a, b = rp(), rp()
+        for path, nv in ((["line"], ok(b[1] + rng.choice([-1, 0, 1, 5]))), (["character"], ok(b[2] + rng.choice([-1, 0, 1]))), (["line"], b[1])):
+            for op in OPS:
+                out.append([op, a, b, path, nv])
+        r, r2 = ["rng", rp(), rp()], ["rng", rp(), rp()]
+        for op in ("Eq", "Ne"):
+            out.append([op, r, r, ["end", "character"], ok(r[2][2] - 1) if r[2][2] else 1])            # equal ranges, then one end moves
+            out.append([op, r, r2, ["start", "line"], r2[1][1]])
+            lo = ["loc", "file:///a", r]
+            out.append([op, lo, lo, ["range", "end", "line"], ok(r[2][1] - 3) if r[2][1] >= 3 else r[2][1] + 3])
+            out.append([op, lo, ["loc", "file:///b", r], ["uri"], "file:///b"])
+    return out
+
+
+def real_run(cases, reprs, mutations=()):
+    p = V.run_py("r_pos.py", input_=json.dumps({"cases": cases, "reprs": reprs, "mutations": list(mutations)}))
     if p.returncode != 0:
         raise RuntimeError("r_pos failed: " + p.stderr[-2000:])
     return json.loads(p.stdout)
@@ -229,6 +263,19 @@ def run(chk):
 
     # search on the real code (always run: it is cheap, and it is the replay source)
     w = spec_search(chk, cases, real["cases"])
+    if not w:
+        # histories: compare, change the first operand in place, compare again
+        muts = gen_mutations(rng, 6 if chk.tier == "quick" else 60)
+        mres = real_run([], [], muts)["mutations"]
+        for (op, a, b, path, nv), got in zip(muts, mres):
+            chk.count(("mutation", op, json.dumps([a, b, path, nv])))
+            a2 = mutate(a, path, nv)          # the runner builds two separate objects even when a and b are the same description
+            want = spec(op, a2, b)
+            if want is not None and want != got:
+                w = {"op": op, "a": a, "b": b, "history": ["all six operators on (a, b)", "a.%s = %r" % (".".join(path), nv)], "a_after": a2,
+                     "expected": want, "observed_impl": got, "codes": "1 True, 0 False, 2 TypeError, 9 other", "mutation": [op, a, b, path, nv]}
+                break
+        chk.extra["mutation_histories"] = len(muts)
     rw = None
     for v, s in zip(reprs, real["reprs"]):
         if s != repr_spec(v):
@@ -255,6 +302,10 @@ def _ints(v):
 def replay(path):
     r = json.load(open(path))
     inp = r.get("input") or {}
+    if "mutation" in inp:
+        got = real_run([], [], [inp["mutation"]])["mutations"][0]
+        print("after", inp.get("history"), "expected", inp["expected"], "observed", got)
+        return 1 if got != inp["expected"] else 0
     if "op" in inp:
         got = real_run([[inp["op"], inp["a"], inp["b"]]], [])["cases"][0]
         print("expected", inp["expected"], "observed", got)
